@@ -151,7 +151,7 @@ theorem C06_chain_run (pp am : RBM α n h) (ppd amd : PRBM α n h a) (k : ℕ) {
 
 /-- **C06.1e** the full step programs are the `stepPos/stepCplx/stepDM` of the statements above evaluated at the end
 states of the chain started from the negative batch. -/
-theorem C06_chain_step (lr eps : α) (am ph : RBM α n h) (amd phd : PRBM α n h a) (dict : Char → M2 α)
+theorem C06_chain_step [LT α] [DecidableLT α] (lr eps : α) (am ph : RBM α n h) (amd phd : PRBM α n h a) (dict : Char → M2 α)
     (D : List (Sample n)) (k : ℕ) {B M : ℕ} (pos : Fin B → Fin n → α) (neg : Fin M → Fin n → Bool) :
     cdStepPos lr am k pos neg = (am.gibbsStepsB k neg).map (fun vk => (vk, stepPos lr am pos (bmat vk)))
     ∧ cdStepCplx lr am ph dict D k neg = (am.gibbsStepsB k neg).map (fun vk => (vk, stepCplx lr am ph dict D (bmat vk)))
